@@ -143,7 +143,8 @@ func VerifC20RunParallel(n int) {
 	if pe, ok := Reason(err).(PipelineError); ok {
 		cnt := 0
 		for _, e := range pe.Errors {
-			if e != nil {
+			// stages that succeeded are listed as OK (an exception with no reason)
+			if e != nil && e.Reason() != nil {
 				cnt++
 			}
 		}
